@@ -549,3 +549,126 @@ Theorem C16_es_route_name_irrelevant : forall x al n1 n2 e dec now0 tsNow clock,
   final_ts x e (real_index al n1) dec now0 tsNow clock = final_ts x e (real_index al n2) dec now0 tsNow clock.
 Proof. exact es_route_name_irrelevant. Qed.
 Print Assumptions C16_es_route_name_irrelevant.
+
+(* ==== Elasticsearch single-document requests (ProcessPutPostSingleDocRequest): PUT/POST /{index}/_doc[/{id}],
+   /{index}/_create/{id}, /{index}/_update/{id}, the pre-7.x routes with a document type ====
+   [doc_build gen q t attrs]: the record handed to the store for the document [es_build t attrs] sent with the
+   request q (route, id of the URL, document type, refresh) when uuid.New() gives gen; the decoder keeps every
+   number literal.  [doc_build_f64] is the same handler with a decoder that goes through float64 (not the code). *)
+
+(* the same document through _bulk and through a single-document request: the same fields with the same values
+   (number literals verbatim, whatever their size), for every key the handler does not assign itself *)
+Theorem C16_es_doc_fields_equal_bulk : forall gen q t attrs k,
+  NoDup (map fst (es_build t attrs)) -> k <> k_id -> k <> k_type ->
+  lookup k (doc_build gen q t attrs) = lookup k (es_build t attrs).
+Proof. exact doc_fields_equal_bulk. Qed.
+Print Assumptions C16_es_doc_fields_equal_bulk.
+
+(* ... and the same time, for every index (plain, jaeger-*, behind an alias), time representation and clock *)
+Theorem C16_es_doc_time_equal_bulk : forall x gen q t attrs index dec now0 tsNow clock,
+  NoDup (map fst (es_build t attrs)) ->
+  final_ts x (doc_build gen q t attrs) index dec now0 tsNow clock =
+  final_ts x (es_build t attrs) index dec now0 tsNow clock.
+Proof. exact doc_time_equal_bulk. Qed.
+Print Assumptions C16_es_doc_time_equal_bulk.
+
+(* what a search returns for it is what it returns for the bulk copy, column by column (after the number reader of
+   the segment writer); "_id" and "_type" are ES metadata that the record reader does not show *)
+Theorem C16_es_doc_stored_equal_bulk : forall gen q t attrs k,
+  NoDup (map fst (es_build t attrs)) -> k <> k_id -> k <> k_type ->
+  lookup k (store_cols (stored_fields_doc (doc_build gen q t attrs))) =
+  lookup k (store_cols (stored_fields (es_build t attrs))).
+Proof. exact doc_stored_equal_bulk. Qed.
+Print Assumptions C16_es_doc_stored_equal_bulk.
+
+Theorem C16_es_doc_meta_hidden : forall e,
+  lookup k_id (stored_fields_doc e) = None /\ lookup k_type (stored_fields_doc e) = None.
+Proof. exact doc_meta_hidden. Qed.
+Print Assumptions C16_es_doc_meta_hidden.
+
+(* the identifier: the one of the URL, a generated one when the URL has none (or an empty one); the document type
+   of the pre-7.x routes; both for ANY decoder, document and route *)
+Theorem C16_es_doc_id_stored : forall num gen q t attrs,
+  lookup k_id (doc_build_with num gen q t attrs) = Some (SStr (doc_id gen q)).
+Proof. exact doc_id_stored. Qed.
+Print Assumptions C16_es_doc_id_stored.
+
+Theorem C16_es_doc_id_of_url : forall gen q b i, dq_id q = Some (b :: i) -> doc_id gen q = b :: i.
+Proof. exact doc_id_of_url. Qed.
+Print Assumptions C16_es_doc_id_of_url.
+
+Theorem C16_es_doc_id_generated : forall gen q, dq_id q = None \/ dq_id q = Some [] -> doc_id gen q = gen.
+Proof. exact doc_id_generated. Qed.
+Print Assumptions C16_es_doc_id_generated.
+
+Theorem C16_es_doc_type_stored : forall num gen q t attrs,
+  dq_type q <> [] -> lookup k_type (doc_build_with num gen q t attrs) = Some (SStr (dq_type q)).
+Proof. exact doc_type_stored. Qed.
+Print Assumptions C16_es_doc_type_stored.
+
+(* no id / id / _create / _update / document type / refresh: the stored content differs in "_id" and "_type" only *)
+Theorem C16_es_doc_variants_agree : forall num gen gen' q q' t attrs k, k <> k_id -> k <> k_type ->
+  lookup k (doc_build_with num gen q t attrs) = lookup k (doc_build_with num gen' q' t attrs).
+Proof. exact doc_variants_agree. Qed.
+Print Assumptions C16_es_doc_variants_agree.
+
+(* Carrying the literal is what the agreement rests on.  With a decoder through float64 (json.Unmarshal into
+   interface{} without UseNumber) the statement
+     forall gen q t attrs k, NoDup .. -> k <> k_id -> k <> k_type ->
+       lookup k (doc_build_f64 gen q t attrs) = lookup k (es_build t attrs)
+   is FALSE: it holds for documents whose integers are below 2^53 ... *)
+Theorem C16_es_doc_float_decoder_same_below_2_53 : forall gen q t attrs,
+  (forall k v, In (k, v) (es_build t attrs) -> exact53 v = true) ->
+  doc_build_f64 gen q t attrs = doc_build gen q t attrs.
+Proof. exact doc_f64_same_when_exact. Qed.
+Print Assumptions C16_es_doc_float_decoder_same_below_2_53.
+
+(* ... and fails above: a 64-bit id and a nanosecond epoch *)
+Theorem C16_es_doc_float_decoder_refuted : exists gen q t attrs k,
+  NoDup (map fst (es_build t attrs)) /\ k <> k_id /\ k <> k_type /\
+  lookup k (doc_build_f64 gen q t attrs) <> lookup k (es_build t attrs).
+Proof. exact doc_f64_refuted. Qed.
+Print Assumptions C16_es_doc_float_decoder_refuted.
+
+Theorem C16_es_doc_float_decoder_witness :
+  lookup (s2b "order_id") (doc_build_f64 [] doc_witness_q WNone doc_witness_attrs) = Some (SInt 9007199254740992) /\
+  lookup (s2b "span_start_ns") (doc_build_f64 [] doc_witness_q WNone doc_witness_attrs) = Some (SInt 1714352490251123500) /\
+  lookup (s2b "small") (doc_build_f64 [] doc_witness_q WNone doc_witness_attrs) = Some (SInt 42) /\
+  lookup (s2b "order_id") (doc_build [] doc_witness_q WNone doc_witness_attrs) = Some (SInt 9007199254740993) /\
+  lookup (s2b "span_start_ns") (doc_build [] doc_witness_q WNone doc_witness_attrs) = Some (SInt 1714352490251123457).
+Proof. exact doc_f64_witness_values. Qed.
+Print Assumptions C16_es_doc_float_decoder_witness.
+
+(* the event time as well (a millisecond value of 18 digits) *)
+Theorem C16_es_doc_float_decoder_time_refuted : exists gen q t attrs index,
+  NoDup (map fst (es_build t attrs)) /\
+  final_ts no_ext (doc_build_f64 gen q t attrs) index None 5 5 5 <> final_ts no_ext (es_build t attrs) index None 5 5 5.
+Proof. exact doc_f64_time_refuted. Qed.
+Print Assumptions C16_es_doc_float_decoder_time_refuted.
+
+(* ==== the number a column holds (parseRawJsonObject / parseJsonInt of the segment writer, every JSON protocol) ====
+   Full statement (FALSE for the code):  forall z, (-2^63 <= z < 2^64)%Z -> store_val (SInt z) = SInt z
+   "an integer of 64 bits, signed or unsigned, is stored as it is". *)
+Theorem C16_int_field_exact_guarded : forall z, in_int64 z = true -> store_val (SInt z) = SInt z.
+Proof. exact store_val_int64. Qed.
+Print Assumptions C16_int_field_exact_guarded.
+
+Theorem C16_uint64_field_refuted : exists z, (9223372036854775808 <= z < 18446744073709551616)%Z /\
+  store_val (SInt z) <> SInt z.
+Proof. exact store_val_uint64_refuted. Qed.
+Print Assumptions C16_uint64_field_refuted.
+
+Theorem C16_number_reader_values :
+  store_val (SInt 9223372036854775809) = SInt 9223372036854775808 /\
+  store_val (SInt 18446744073709551615) = SInt 18446744073709551616 /\
+  store_val (SInt 9223372036854775807) = SInt 9223372036854775807 /\
+  store_val (SInt (-9223372036854775808)) = SInt (-9223372036854775808) /\
+  store_val (SInt 100000000000000000000001) = SInt 100000000000000008388608.
+Proof. exact store_val_values. Qed.
+Print Assumptions C16_number_reader_values.
+
+Example C16_es_doc_guards_satisfiable :
+  NoDup (map fst (es_build (WNum 1600000000123) doc_witness_attrs)) /\
+  (forall k v, In (k, v) (es_build WNone [(s2b "small", SInt 42); (s2b "note", SStr (s2b "x"))]) -> exact53 v = true) /\
+  in_int64 9007199254740993 = true.
+Proof. exact doc_guards_satisfiable. Qed.
